@@ -458,7 +458,7 @@ pub fn limit_val(s: &mut Src) -> LimitVal {
 pub fn ext_url(s: &mut Src, prefix: &str) -> String {
     match s.weighted(&[3, 2]) {
         0 => format!("http://example.com/{}/{}", prefix, s.below(1000)),
-        _ => format!("http://example.com/{prefix}?a=1{}", xml_string(s)),
+        _ => format!("http://example.com/{prefix}?a=1&b={}", xml_string(s)),
     }
 }
 
